@@ -4,6 +4,13 @@ Import ListNotations.
 
 Section Proofs.
   Variable valid : list id -> id -> bool.
+  Variable finality : list id -> nat.
+
+  Lemma fin_walk_quiet : forall bs f c, (forall c', finality c' <= f) -> fin_walk valid finality f c bs = f.
+  Proof.
+    induction bs as [|b r IH]; intros f c H; cbn [fin_walk]; [reflexivity|]. destruct (valid c b); [|reflexivity].
+    rewrite Nat.max_l by apply H. apply IH. exact H.
+  Qed.
 
   Lemma apply_all_valid : forall bs c, all_valid valid c bs -> apply_all valid c bs = (c ++ bs, true).
   Proof.
@@ -122,6 +129,10 @@ Section Proofs.
   Ltac pre_checks Hc Hn :=
     rewrite Hc, (index_of_mid _ _ _ Hn).
 
+  Lemma quiet_with_fin : forall n1 c2 bs, (forall c', finality c' <= finalized n1) ->
+    with_fin (with_chain n1 c2) (fin_walk valid finality (finalized n1) (chain n1) bs) = with_chain n1 c2.
+  Proof. intros n1 c2 bs H. rewrite (fin_walk_quiet _ _ _ H). reflexivity. Qed.
+
   Lemma delete_till_mid : forall n pre cid own save, chain n = pre ++ cid :: own -> finalized n <= length pre ->
     delete_till n (length pre) save =
     ({| chain := pre ++ [cid]; temp := if save then save_from (S (length pre)) own (temp n) else temp n;
@@ -132,14 +143,14 @@ Section Proofs.
   Qed.
 
   (* own chain = pre ++ cid :: own, peer's chain = pre ++ cid :: blocks; the peer answers cid and delivers blocks *)
-  Lemma honest_peer_converges_fast : forall rs cs n pre cid own blocks th r2,
+  Lemma honest_peer_converges_fast : forall rs cs ba n pre cid own blocks th r2,
     chain n = pre ++ cid :: own -> ~ In cid pre ->
-    finalized n <= length pre -> length own <= r2 -> length pre <= th -> th - length pre <= r2 -> (N.of_nat th < 4294967296)%N ->
+    finalized n <= length pre -> (forall c', finality c' <= finalized n) -> length own <= r2 -> length pre <= th -> th - length pre <= r2 -> (N.of_nat th < 4294967296)%N ->
     all_valid valid (pre ++ [cid]) blocks ->
-    fast_sync valid rs cs n (Some cid) blocks EndOk th r2 =
+    fast_sync valid finality rs cs ba n (Some cid) blocks EndOk th r2 =
     ({| chain := pre ++ cid :: blocks; temp := []; finalized := finalized n; banned := banned n |}, Synced).
   Proof.
-    intros rs cs n pre cid own blocks th r2 Hc Hn Hf Ho Hle Ht Hth Hv. unfold fast_sync. assert (Hi : index_of cid (chain n) = Some (length pre)) by (rewrite Hc; apply index_of_mid; exact Hn).
+    intros rs cs ba n pre cid own blocks th r2 Hc Hn Hf Hq Ho Hle Ht Hth Hv. unfold fast_sync. assert (Hi : index_of cid (chain n) = Some (length pre)) by (rewrite Hc; apply index_of_mid; exact Hn).
     assert (Hl : length (chain n) = length pre + S (length own)) by (rewrite Hc, app_length; reflexivity).
     rewrite Hi, Hl.
     assert (E1 : (length pre <? finalized n) = false) by (apply Nat.ltb_ge; lia). rewrite E1.
@@ -148,34 +159,34 @@ Section Proofs.
     set (n0 := if cs then clear_temp n else n).
     assert (Hc0 : chain n0 = pre ++ cid :: own) by (subst n0; destruct cs; exact Hc).
     assert (Hf0 : finalized n0 <= length pre) by (subst n0; destruct cs; exact Hf).
-    rewrite (delete_till_mid n0 pre cid own true Hc0 Hf0). cbn [negb chain]. rewrite (apply_all_valid _ _ Hv).
+    rewrite (delete_till_mid n0 pre cid own true Hc0 Hf0). cbn [negb chain]. rewrite (apply_all_valid _ _ Hv). rewrite quiet_with_fin by (cbn [finalized]; try (subst n0; destruct cs); exact Hq).
     unfold clear_temp, with_chain. cbn [chain finalized banned]. rewrite <- app_assoc.
     subst n0. destruct cs; reflexivity.
   Qed.
 
   Lemma honest_peer_converges_block : forall n pre cid own blocks,
-    chain n = pre ++ cid :: own -> ~ In cid pre -> finalized n <= length pre ->
+    chain n = pre ++ cid :: own -> ~ In cid pre -> finalized n <= length pre -> (forall c', finality c' <= finalized n) ->
     all_valid valid (pre ++ [cid]) blocks ->
-    block_sync valid n (Some cid) blocks EndOk =
+    block_sync valid finality n (Some cid) blocks EndOk =
     ({| chain := pre ++ cid :: blocks; temp := []; finalized := finalized n; banned := banned n |}, Synced).
   Proof.
-    intros n pre cid own blocks Hc Hn Hf Hv. unfold block_sync.
+    intros n pre cid own blocks Hc Hn Hf Hq Hv. unfold block_sync.
     assert (Hi : index_of cid (chain n) = Some (length pre)) by (rewrite Hc; apply index_of_mid; exact Hn). rewrite Hi.
-    rewrite (delete_till_mid n pre cid own true Hc Hf). cbn [negb chain]. rewrite (apply_all_valid _ _ Hv).
+    rewrite (delete_till_mid n pre cid own true Hc Hf). cbn [negb chain]. rewrite (apply_all_valid _ _ Hv). rewrite quiet_with_fin by (cbn [finalized]; try (subst n0; destruct cs); exact Hq).
     unfold clear_temp, with_chain. cbn [chain finalized banned]. rewrite <- app_assoc. reflexivity.
   Qed.
 
   (* block sync never restores: after an invalid block (or a broken stream) the node is left on the common block plus
      the blocks applied so far, its own blocks only in the temp table, the peer not banned *)
   Lemma block_sync_failure_shape : forall n pre cid own good bad rest e,
-    chain n = pre ++ cid :: own -> ~ In cid pre -> finalized n <= length pre ->
+    chain n = pre ++ cid :: own -> ~ In cid pre -> finalized n <= length pre -> (forall c', finality c' <= finalized n) ->
     all_valid valid (pre ++ [cid]) good -> valid ((pre ++ [cid]) ++ good) bad = false ->
-    block_sync valid n (Some cid) (good ++ bad :: rest) e =
+    block_sync valid finality n (Some cid) (good ++ bad :: rest) e =
     ({| chain := pre ++ cid :: good; temp := save_from (S (length pre)) own (temp n); finalized := finalized n; banned := banned n |}, Failed).
   Proof.
-    intros n pre cid own good bad rest e Hc Hn Hf Hg Hbad. unfold block_sync.
+    intros n pre cid own good bad rest e Hc Hn Hf Hq Hg Hbad. unfold block_sync.
     assert (Hi : index_of cid (chain n) = Some (length pre)) by (rewrite Hc; apply index_of_mid; exact Hn). rewrite Hi.
-    rewrite (delete_till_mid n pre cid own true Hc Hf). cbn [negb chain]. rewrite (apply_all_fails _ _ _ _ Hg Hbad).
+    rewrite (delete_till_mid n pre cid own true Hc Hf). cbn [negb chain]. rewrite (apply_all_fails _ _ _ _ Hg Hbad). rewrite quiet_with_fin by (cbn [finalized clear_temp]; exact Hq).
     unfold with_chain. cbn [temp finalized banned]. rewrite <- app_assoc. reflexivity.
   Qed.
 
@@ -191,13 +202,13 @@ Section Proofs.
      block sits and whatever temp blocks earlier syncs left behind, the original chain is back and the peer is banned *)
   Lemma failed_fast_sync_restores_and_bans : forall n pre cid own good bad rest th r2,
     chain n = pre ++ cid :: own -> ~ In cid pre ->
-    finalized n <= length pre -> length own <= r2 -> length pre <= th -> th - length pre <= r2 -> (N.of_nat th < 4294967296)%N ->
+    finalized n <= length pre -> (forall c', finality c' <= finalized n) -> length own <= r2 -> length pre <= th -> th - length pre <= r2 -> (N.of_nat th < 4294967296)%N ->
     all_valid valid (pre ++ [cid]) good -> valid ((pre ++ [cid]) ++ good) bad = false ->
     all_valid valid (pre ++ [cid]) own ->
-    let '(n', o) := fast_sync valid false true n (Some cid) (good ++ bad :: rest) EndOk th r2 in
+    let '(n', o) := fast_sync valid finality false true true n (Some cid) (good ++ bad :: rest) EndOk th r2 in
     chain n' = chain n /\ banned n' = true /\ o = Failed.
   Proof.
-    intros n pre cid own good bad rest th r2 Hc Hn Hf Ho Hle Ht Hth Hg Hbad Hown. unfold fast_sync.
+    intros n pre cid own good bad rest th r2 Hc Hn Hf Hq Ho Hle Ht Hth Hg Hbad Hown. unfold fast_sync.
     assert (Hi : index_of cid (chain n) = Some (length pre)) by (rewrite Hc; apply index_of_mid; exact Hn).
     assert (Hl : length (chain n) = length pre + S (length own)) by (rewrite Hc, app_length; reflexivity).
     rewrite Hi, Hl.
@@ -205,7 +216,7 @@ Section Proofs.
     assert (E2 : (r2 <? length pre + S (length own) - 1 - length pre) = false) by (apply Nat.ltb_ge; lia).
     assert (E3 : far32 th (length pre) r2 = false) by (apply far32_near; assumption). rewrite E2, E3. cbn [orb].
     rewrite (delete_till_mid (clear_temp n) pre cid own true Hc Hf). cbn [negb chain clear_temp temp].
-    rewrite (apply_all_fails _ _ _ _ Hg Hbad).
+    rewrite (apply_all_fails _ _ _ _ Hg Hbad). rewrite quiet_with_fin by (cbn [finalized clear_temp]; exact Hq).
     set (n2 := with_chain _ _).
     assert (Hc2 : chain n2 = pre ++ cid :: good) by (subst n2; cbn [with_chain chain]; rewrite <- app_assoc; reflexivity).
     assert (Hf2 : finalized n2 <= length pre) by (subst n2; cbn; exact Hf).
@@ -220,12 +231,12 @@ Section Proofs.
      invalid and no temp block was left behind *)
   Lemma failed_fast_sync_orig_first_block_case : forall n pre cid own bad rest th r2,
     chain n = pre ++ cid :: own -> ~ In cid pre -> temp n = [] ->
-    finalized n <= length pre -> length own <= r2 -> length pre <= th -> th - length pre <= r2 -> (N.of_nat th < 4294967296)%N ->
+    finalized n <= length pre -> (forall c', finality c' <= finalized n) -> length own <= r2 -> length pre <= th -> th - length pre <= r2 -> (N.of_nat th < 4294967296)%N ->
     valid (pre ++ [cid]) bad = false -> all_valid valid (pre ++ [cid]) own ->
-    let '(n', o) := fast_sync valid true false n (Some cid) (bad :: rest) EndOk th r2 in
+    let '(n', o) := fast_sync valid finality true false false n (Some cid) (bad :: rest) EndOk th r2 in
     chain n' = chain n /\ banned n' = true /\ o = Failed.
   Proof.
-    intros n pre cid own bad rest th r2 Hc Hn Htmp Hf Ho Hle Ht Hth Hbad Hown. unfold fast_sync.
+    intros n pre cid own bad rest th r2 Hc Hn Htmp Hf Hq Ho Hle Ht Hth Hbad Hown. unfold fast_sync.
     assert (Hi : index_of cid (chain n) = Some (length pre)) by (rewrite Hc; apply index_of_mid; exact Hn).
     assert (Hl : length (chain n) = length pre + S (length own)) by (rewrite Hc, app_length; reflexivity).
     rewrite Hi, Hl.
@@ -233,7 +244,7 @@ Section Proofs.
     assert (E2 : (r2 <? length pre + S (length own) - 1 - length pre) = false) by (apply Nat.ltb_ge; lia).
     assert (E3 : far32 th (length pre) r2 = false) by (apply far32_near; assumption). rewrite E2, E3. cbn [orb].
     rewrite (delete_till_mid n pre cid own true Hc Hf). cbn [negb chain]. rewrite Htmp.
-    cbn [apply_all]. rewrite Hbad.
+    cbn [apply_all]. rewrite Hbad. rewrite quiet_with_fin by (cbn [finalized]; exact Hq).
     set (n2 := with_chain _ _).
     assert (Hc2 : chain n2 = pre ++ cid :: []) by (subst n2; reflexivity).
     assert (Hf2 : finalized n2 <= length pre) by (subst n2; cbn; exact Hf).
@@ -245,22 +256,22 @@ Section Proofs.
   Qed.
 
   (* a peer naming a common block ABOVE the height of the block it offered: nothing is touched *)
-  Lemma fast_sync_common_above_block_aborts : forall rs cs n cid hc blocks e th r2,
+  Lemma fast_sync_common_above_block_aborts : forall rs cs ba n cid hc blocks e th r2,
     index_of cid (chain n) = Some hc -> finalized n <= hc -> th < hc ->
     (N.of_nat hc < 4294967296)%N -> (N.of_nat r2 + N.of_nat (hc - th) < 4294967296)%N ->
-    fast_sync valid rs cs n (Some cid) blocks e th r2 = (n, Aborted).
+    fast_sync valid finality rs cs ba n (Some cid) blocks e th r2 = (n, Aborted).
   Proof.
-    intros rs cs n cid hc blocks e th r2 Hi Hf Hlt Hh Hr. unfold fast_sync. rewrite Hi.
+    intros rs cs ba n cid hc blocks e th r2 Hi Hf Hlt Hh Hr. unfold fast_sync. rewrite Hi.
     assert (E1 : (hc <? finalized n) = false) by (apply Nat.ltb_ge; lia). rewrite E1.
     rewrite (far32_above th hc r2 Hlt Hh Hr). rewrite orb_true_r. reflexivity.
   Qed.
 
   (* a peer whose stream breaks or carries a statelessly invalid block costs a fast-syncing node nothing *)
-  Lemma fast_sync_bad_stream_no_change : forall rs cs n common blocks e th r2, e <> EndOk ->
-    chain (fst (fast_sync valid rs cs n common blocks e th r2)) = chain n /\
-    snd (fast_sync valid rs cs n common blocks e th r2) <> Synced.
+  Lemma fast_sync_bad_stream_no_change : forall rs cs ba n common blocks e th r2, e <> EndOk ->
+    chain (fst (fast_sync valid finality rs cs ba n common blocks e th r2)) = chain n /\
+    snd (fast_sync valid finality rs cs ba n common blocks e th r2) <> Synced.
   Proof.
-    intros rs cs n common blocks e th r2 He. unfold fast_sync.
+    intros rs cs ba n common blocks e th r2 He. unfold fast_sync.
     destruct common as [cid|]; [|cbn; split; [reflexivity|discriminate]].
     destruct (index_of cid (chain n)) as [hc|]; [|cbn; split; [reflexivity|discriminate]].
     destruct (hc <? finalized n); [cbn; split; [reflexivity|discriminate]|].
@@ -282,7 +293,7 @@ Definition w_valid (c : list id) (b : id) : bool :=
 Lemma failed_fast_sync_restores_orig_refuted :
   exists valid n cid own blocks th r2,
     chain n = [0%N] ++ own /\ cid = 0%N /\ temp n = [] /\ all_valid valid [0%N] own /\
-    let '(n', o) := fast_sync valid true false n (Some cid) blocks EndOk th r2 in
+    let '(n', o) := fast_sync valid (fun _ => 0%nat) true false false n (Some cid) blocks EndOk th r2 in
     chain n' <> chain n /\ banned n' = false.
 Proof.
   exists w_valid, {| chain := [0; 1; 2]%N; temp := []; finalized := 0; banned := false |}, 0%N, [1; 2]%N, [11; 12]%N, 2, 4.
@@ -295,7 +306,7 @@ Qed.
 Lemma failed_fast_sync_stale_temp_refuted :
   exists valid n cid own blocks th r2,
     chain n = [0%N; 5%N] ++ own /\ cid = 5%N /\ all_valid valid [0%N; 5%N] own /\
-    let '(n', o) := fast_sync valid false false n (Some cid) blocks EndOk th r2 in
+    let '(n', o) := fast_sync valid (fun _ => 0%nat) false false false n (Some cid) blocks EndOk th r2 in
     chain n' <> chain n /\ banned n' = false.
 Proof.
   exists (fun c b => match b with 6%N => match c with [0%N; 5%N] => true | _ => false end | _ => false end),
@@ -305,11 +316,68 @@ Proof.
 Qed.
 
 (* ---------------------------------------------------------------- nothing at or below the finalized height is deleted *)
+(* finality moves while the downloaded blocks are applied: the peer serves valid blocks that finalize a height above the
+   common block, then an invalid one.  restoreBlocks cannot delete the finalized blocks; ORIGINALLY it returned the error
+   without banning and left the own blocks in the temp table *)
+Definition h1_valid (c : list id) (b : id) : bool :=
+  match b with
+  | 1%N => match c with [0%N] => true | _ => false end
+  | 11%N => match c with [0%N] => true | _ => false end
+  | 12%N => match c with [0%N; 11%N] => true | _ => false end
+  | _ => false
+  end.
+Definition h1_finality (c : list id) : nat := match c with [0%N; 11%N; 12%N] => 1 | _ => 0 end.
+
+Lemma failed_fast_sync_finality_moved_refuted :
+  exists valid finality n cid own blocks th r2,
+    chain n = [0%N] ++ own /\ cid = 0%N /\ temp n = [] /\ all_valid valid [0%N] own /\
+    (let '(n', o) := fast_sync valid finality false true false n (Some cid) blocks EndOk th r2 in
+     chain n' <> chain n /\ banned n' = false /\ temp n' <> []) /\
+    (* with the ban made unconditional the peer is banned and the stale originals are dropped; the original block at the
+       now finalized height cannot come back *)
+    (let '(n', o) := fast_sync valid finality false true true n (Some cid) blocks EndOk th r2 in
+     chain n' = [0%N; 11%N] /\ banned n' = true /\ temp n' = [] /\ finalized n' = 1).
+Proof.
+  exists h1_valid, h1_finality, {| chain := [0; 1]%N; temp := []; finalized := 0; banned := false |}, 0%N, [1%N], [11; 12; 13]%N, 3, 8.
+  split; [reflexivity|]. split; [reflexivity|]. split; [reflexivity|]. split; [cbn; auto|].
+  split; vm_compute; repeat split; try reflexivity; discriminate.
+Qed.
+
+Section Always.
+  Variable valid : list id -> id -> bool.
+  Variable finality : list id -> nat.
+
+  (* CURRENT code: whenever a delivered block that passed Validate is rejected by the processor during a fast sync, the peer
+     is banned — whether or not the original blocks could be restored *)
+  Lemma failed_fast_sync_always_bans : forall rs cs n cid hc blocks th r2,
+    index_of cid (chain n) = Some hc -> finalized n <= hc ->
+    (r2 <? (length (chain n) - 1) - hc) || far32 th hc r2 = false ->
+    snd (apply_all valid (firstn (S hc) (chain n)) blocks) = false ->
+    banned (fst (fast_sync valid finality rs cs true n (Some cid) blocks EndOk th r2)) = true.
+  Proof.
+    intros rs cs n cid hc blocks th r2 Hi Hf Hr Hbad. unfold fast_sync. rewrite Hi.
+    assert (E1 : (hc <? finalized n) = false) by (apply Nat.ltb_ge; lia). rewrite E1, Hr.
+    set (n0 := if cs then clear_temp n else n).
+    assert (Hc0 : chain n0 = chain n) by (subst n0; destruct cs; reflexivity).
+    assert (Hf0 : finalized n0 = finalized n) by (subst n0; destruct cs; reflexivity).
+    unfold delete_till at 1. rewrite Hf0, Hc0. rewrite Nat.max_l by lia.
+    assert (E2 : (finalized n <=? hc) = true) by (apply Nat.leb_le; lia). rewrite E2. cbn [negb chain].
+    destruct (apply_all valid (firstn (S hc) (chain n)) blocks) as [c2 ok] eqn:Ea. cbn [snd] in Hbad. subst ok.
+    destruct (delete_till _ hc rs) as [n3 ok3]. destruct ok3; cbn [negb]; [|reflexivity].
+    destruct (stale (temp n3) hc); [reflexivity|].
+    destruct (restore_apply valid (chain n3) (temp n3) (S hc) (length (temp n3))) as [[c4 t4] ok']. destruct ok'; reflexivity.
+  Qed.
+End Always.
+
+
 Section Keep.
   Variable valid : list id -> id -> bool.
+  Variable finality : list id -> nat.
 
+  (* nothing at or below the finalized height the node had BEFORE the sync is changed, and the stored finalized height
+     only grows; deletions stop at the finalized height in force at that moment (which applied blocks may have raised) *)
   Definition keeps (n n' : node) : Prop :=
-    firstn (S (finalized n)) (chain n') = firstn (S (finalized n)) (chain n) /\ finalized n' = finalized n.
+    firstn (S (finalized n)) (chain n') = firstn (S (finalized n)) (chain n) /\ finalized n <= finalized n'.
 
   Lemma firstn_prefix_app : forall (c x : list id) f hc, f <= hc -> f < length c ->
     firstn (S f) (firstn (S hc) c ++ x) = firstn (S f) c.
@@ -320,13 +388,18 @@ Section Keep.
     rewrite firstn_firstn. replace (Nat.min (S f) (S hc)) with (S f) by lia. reflexivity.
   Qed.
 
-  Lemma delete_till_keeps : forall n hc save x, finalized n < length (chain n) ->
+  Lemma delete_till_keeps : forall n f0 hc save x, f0 <= finalized n -> f0 < length (chain n) ->
     let n1 := fst (delete_till n hc save) in
-    firstn (S (finalized n)) (chain n1 ++ x) = firstn (S (finalized n)) (chain n) /\ finalized n1 = finalized n /\
-    finalized n1 < length (chain n1).
+    firstn (S f0) (chain n1 ++ x) = firstn (S f0) (chain n) /\ finalized n1 = finalized n /\ f0 < length (chain n1).
   Proof.
-    intros n hc save x Hlen. unfold delete_till. cbn [fst chain finalized].
+    intros n f0 hc save x Hf Hlen. unfold delete_till. cbn [fst chain finalized].
     split; [apply firstn_prefix_app; [lia|assumption]|]. split; [reflexivity|]. rewrite firstn_length. lia.
+  Qed.
+
+  Lemma fin_walk_ge : forall bs f c, f <= fin_walk valid finality f c bs.
+  Proof.
+    induction bs as [|b r IH]; intros f c; cbn [fin_walk]; [lia|]. destruct (valid c b); [|lia].
+    specialize (IH (Nat.max f (finality (c ++ [b]))) (c ++ [b])). lia.
   Qed.
 
   Lemma restore_apply_extends : forall fuel c t h, exists ext, fst (fst (restore_apply valid c t h fuel)) = c ++ ext.
@@ -337,52 +410,58 @@ Section Keep.
     destruct (IH (c ++ [b]) (unbind h t) (S h)) as [ext He]. exists (b :: ext). rewrite He, <- app_assoc. reflexivity.
   Qed.
 
-  Lemma fast_sync_keeps_finalized : forall rs cs n common blocks e th r2, finalized n < length (chain n) ->
-    keeps n (fst (fast_sync valid rs cs n common blocks e th r2)).
+  Lemma fast_sync_keeps_finalized : forall rs cs ba n common blocks e th r2, finalized n < length (chain n) ->
+    keeps n (fst (fast_sync valid finality rs cs ba n common blocks e th r2)).
   Proof.
-    intros rs cs n common blocks e th r2 Hlen. unfold fast_sync, keeps.
+    intros rs cs ba n common blocks e th r2 Hlen. unfold fast_sync, keeps.
     destruct common as [cid|]; [|cbn; auto]. destruct (index_of cid (chain n)) as [hc|]; [|cbn; auto].
     destruct (hc <? finalized n); [cbn; auto|]. destruct (_ || _); [cbn; auto|].
     destruct e; [|cbn; auto|cbn; auto].
+    set (f0 := finalized n) in *.
     set (n0 := if cs then clear_temp n else n).
     assert (Hc0 : chain n0 = chain n) by (subst n0; destruct cs; reflexivity).
-    assert (Hf0 : finalized n0 = finalized n) by (subst n0; destruct cs; reflexivity).
-    assert (Hlen0 : finalized n0 < length (chain n0)) by (rewrite Hc0, Hf0; exact Hlen).
+    assert (Hf0 : finalized n0 = f0) by (subst n0; destruct cs; reflexivity).
     destruct (delete_till n0 hc true) as [n1 ok1] eqn:E1.
-    pose proof (delete_till_keeps n0 hc true) as K. rewrite E1 in K. cbn [fst] in K. rewrite Hc0, Hf0 in K.
-    destruct ok1; cbn [negb]; [|destruct (K [] Hlen) as (K1 & K2 & _); rewrite app_nil_r in K1; cbn [fst]; auto].
+    pose proof (delete_till_keeps n0 f0 hc true) as K. rewrite E1 in K. cbn [fst] in K. rewrite Hc0, Hf0 in K.
+    destruct ok1; cbn [negb];
+      [|destruct (K [] (Nat.le_refl _) Hlen) as (K1 & K2 & _); rewrite app_nil_r in K1; cbn [fst]; split; [exact K1|lia]].
     destruct (apply_all_extends valid blocks (chain n1)) as [ext He].
     destruct (apply_all valid (chain n1) blocks) as [c2 ok] eqn:Ea. cbn [fst] in He. subst c2.
-    destruct (K ext Hlen) as (K1 & K2 & K3).
-    destruct ok; [cbn [fst clear_temp with_chain chain finalized]; auto|].
-    set (n2 := with_chain n1 (chain n1 ++ ext)).
-    assert (Hlen2 : finalized n2 < length (chain n2)) by (subst n2; cbn [with_chain chain finalized]; rewrite app_length; lia).
-    destruct (delete_till n2 hc rs) as [n3 ok3] eqn:E3.
-    pose proof (delete_till_keeps n2 hc rs) as J. rewrite E3 in J. cbn [fst] in J.
-    assert (Hf2 : finalized n2 = finalized n) by (subst n2; cbn; exact K2).
+    destruct (K ext (Nat.le_refl _) Hlen) as (K1 & K2 & K3).
+    pose proof (fin_walk_ge blocks (finalized n1) (chain n1)) as Hw.
+    set (n2 := with_fin (with_chain n1 (chain n1 ++ ext)) (fin_walk valid finality (finalized n1) (chain n1) blocks)) in *.
     assert (Hc2 : chain n2 = chain n1 ++ ext) by reflexivity.
+    assert (Hf2 : f0 <= finalized n2) by (subst n2; cbn [with_fin finalized]; lia).
+    assert (Hlen2 : f0 < length (chain n2)) by (rewrite Hc2, app_length; lia).
+    destruct ok; [cbn [fst clear_temp chain finalized]; rewrite Hc2; split; [exact K1|exact Hf2]|].
+    destruct (delete_till n2 hc rs) as [n3 ok3] eqn:E3.
+    pose proof (delete_till_keeps n2 f0 hc rs) as J. rewrite E3 in J. cbn [fst] in J.
+    assert (Jnil : firstn (S f0) (chain n3) = firstn (S f0) (chain n) /\ f0 <= finalized n3).
+    { destruct (J [] Hf2 Hlen2) as (J1 & J2 & _). rewrite app_nil_r, Hc2 in J1. split; [rewrite J1; exact K1|lia]. }
     destruct ok3; cbn [negb].
-    2:{ destruct (J [] Hlen2) as (J1 & J2 & _). rewrite app_nil_r in J1. cbn [fst]. rewrite Hf2, Hc2 in J1. rewrite J1, J2. auto. }
+    2:{ destruct ba; cbn [fst ban clear_temp chain finalized]; exact Jnil. }
     destruct (stale (temp n3) hc).
-    { destruct (J [] Hlen2) as (J1 & J2 & _). rewrite app_nil_r in J1. cbn [fst]. rewrite Hf2, Hc2 in J1. rewrite J1, J2. auto. }
+    { destruct ba; cbn [fst ban clear_temp chain finalized]; exact Jnil. }
     destruct (restore_apply_extends (length (temp n3)) (chain n3) (temp n3) (S hc)) as [ext4 He4].
     destruct (restore_apply valid (chain n3) (temp n3) (S hc) (length (temp n3))) as [[c4 t4] ok4]. cbn [fst] in He4. subst c4.
-    destruct (J ext4 Hlen2) as (J1 & J2 & _). rewrite Hf2, Hc2 in J1.
-    destruct ok4; cbn [fst ban with_chain_temp chain finalized]; (split; [rewrite J1; exact K1|rewrite J2; exact Hf2]).
+    destruct (J ext4 Hf2 Hlen2) as (J1 & J2 & _). rewrite Hc2 in J1.
+    destruct ok4; [|destruct ba]; cbn [fst ban clear_temp with_chain_temp chain finalized]; (split; [rewrite J1; exact K1|lia]).
   Qed.
 
   Lemma block_sync_keeps_finalized : forall n common blocks e, finalized n < length (chain n) ->
-    keeps n (fst (block_sync valid n common blocks e)).
+    keeps n (fst (block_sync valid finality n common blocks e)).
   Proof.
     intros n common blocks e Hlen. unfold block_sync, keeps.
     destruct common as [cid|]; [|cbn; auto]. destruct (index_of cid (chain n)) as [hc|]; [|cbn; auto].
     destruct (delete_till n hc true) as [n1 ok1] eqn:E1.
-    pose proof (delete_till_keeps n hc true) as K. rewrite E1 in K. cbn [fst] in K.
-    destruct ok1; cbn [negb]; [|destruct (K [] Hlen) as (K1 & K2 & _); rewrite app_nil_r in K1; cbn [fst]; auto].
+    pose proof (delete_till_keeps n (finalized n) hc true) as K. rewrite E1 in K. cbn [fst] in K.
+    destruct ok1; cbn [negb];
+      [|destruct (K [] (Nat.le_refl _) Hlen) as (K1 & K2 & _); rewrite app_nil_r in K1; cbn [fst]; split; [exact K1|lia]].
     destruct (apply_all_extends valid blocks (chain n1)) as [ext He].
     destruct (apply_all valid (chain n1) blocks) as [c2 ok] eqn:Ea. cbn [fst] in He. subst c2.
-    destruct (K ext Hlen) as (K1 & K2 & _).
-    destruct ok; [destruct e|]; cbn [fst clear_temp ban with_chain chain finalized]; auto.
+    destruct (K ext (Nat.le_refl _) Hlen) as (K1 & K2 & _).
+    pose proof (fin_walk_ge blocks (finalized n1) (chain n1)) as Hw.
+    destruct ok; [destruct e|]; cbn [fst clear_temp ban with_fin with_chain chain finalized]; (split; [exact K1|lia]).
   Qed.
 End Keep.
 
